@@ -251,6 +251,22 @@ def gen_nullable(rng, d):
     return ("?", gen_nullable(rng, d - 1))
 
 
+# ---------------------------------------------------------------- every builtin token class, at the end of the input
+BUILTIN_CLASSES = ["EOF", "COMMENT", "IDENT", "INT", "FLOAT", "IMAG", "CHAR", "STRING", "RAT", "UNIT", "LPAREN", "RPAREN",
+                   "LBRACK", "RBRACK", "LBRACE", "RBRACE", "RAWSTRING", "QSTRING"]   # SPACE is nullable: *SPACE is the known nullable-repetition class
+BUILTIN_CONTEXTS = ['doc = *(INT | ";" | %s)\n', 'doc = +%s\n', 'doc = *%s\n', 'doc = +(%s | INT | ";")\n', 'doc = *(%s ";" | INT)\n',
+                    'doc = ?%s INT\n', 'doc = INT ?%s\n', 'doc = %s %% ","\n', 'doc = INT %% %s\n', 'doc = *(INT | ";") %s\n',
+                    'doc = *(INT | ";") +%s\n', 'doc = *(INT | ";") *(%s | IDENT)\n', 'doc = +(?INT (%s | ";" | IDENT))\n',
+                    'doc = *(INT ++ %s | INT | ";")\n', 'doc = *r\nr = INT | ";" | %s\n']
+BUILTIN_INPUTS = ["1 2 3", "", "1", "1 ;", "a b", "( 1 ) [ 2 ] { 3 }", '1.5 2i 3r \'c\' "s" `r`', "1m 2s", "1 , 2 , 3", "1 /* c */ 2"]
+
+
+def builtin_class_family():
+    """(grammar, input): every identifier of cl's idents table (and RAWSTRING/QSTRING/SPACE) in every repetition / list /
+    optional context, with inputs that are consumed up to the very end of the token list (incl. the inserted ';')"""
+    return [((c % k).encode(), t.encode()) for k in BUILTIN_CLASSES for c in BUILTIN_CONTEXTS for t in BUILTIN_INPUTS]
+
+
 # ---------------------------------------------------------------- result rewriters (RetProcs) and runtime errors
 def _hexs(x):
     return x.encode().hex()
